@@ -14,7 +14,10 @@ META = {
     "beyond the array, .bit on a structure, no-access tag), likewise 9 valid / 10 invalid writes (plus unencodable value, too-short "
     "list, misaligned BOOL range, read-only tag): ALL lists of length 1, 2 and 3 over each alphabet, all lists of length 4 over a "
     "6-request sub-alphabet, and straddling lists (n medium requests with an invalid, a fragmented or a duplicate request inserted "
-    "at every position, n chosen to span 1-3 multi-service packets). Oracle: no exception escapes; one Tag iff n = 1 else a list of "
+    "at every position, n chosen to span 1-3 multi-service packets). Refused services (deviation bound 1 on the controller's answers): in single, "
+    "3-request and 6-request calls the n-th tag service - every n, including members of multi-service packets and every fragment - is refused with each of 9 "
+    "statuses (with/without extended words, codes inside and outside the library's tables): no exception, at least one request fails, only requests on the refused tag fail, "
+    "all other values/memory as in the un-refused call. Oracle: no exception escapes; one Tag iff n = 1 else a list of "
     "n; names in request order; truthiness = reference verdict of each request; Tag truthiness contract; isolation as a differential: "
     "outcome i in the list == outcome of request i alone from the same memory. distinct = distinct (world, operation, list).",
     "explanation": "exhaustive enumeration of all request lists up to length 3 (4 over a sub-alphabet) with a differential isolation oracle",
